@@ -43,7 +43,7 @@ CLAIMED = {
     "C06": dict(
         technique="engine invariant (completed and failed disjoint, put requires all predecessors completed), failure-lock invariant G5, concrete identity checks of NodeError / CallError objects on every path",
         text="Proved: the failure path never adds to 'completed' and never enqueues successors; first_node_error is written only when unset, names the thread's own node and carries the very exception; "
-             "no exception escapes process_node (BaseException included); the coordinator raises exactly that object after the pool is drained; run turns NodeError e into CallError(e.node) from e.__cause__.",
+             "no exception escapes process_node (BaseException included); the coordinator raises exactly that object after the pool is drained; run turns NodeError e into CallError(e.node) from e.__cause__ - whatever the call raised (ordinary, falsy, already chained, itself the CallError of a nested run, a NodeError); create_chained_call_error always builds a new CallError for the given node.",
         note="'first failure with one worker' follows from G5 with worker_count = 1 (not a separate obligation). A registered Literal whose modified-time query fails yields AttributeError instead of CallError: known finding F4 (reported under C19).",
     ),
     "C07": dict(
@@ -64,7 +64,7 @@ CLAIMED = {
     "C10": dict(
         technique="loop invariant on the real retry wrapper; ghost in-flight set and failure-lock invariant for max_errors; worker_pool / coordinator contracts for max_workers; run composition for the plumbing",
         text="Proved: retry (all attempts >= 1, exception classes, outcomes); exactly worker_count threads run process_items and fn is only called after an unset stop flag was read; "
-             "error_count + in-flight <= max_errors + worker_count once stop is set (G5 with cardinality lemmas); stale check sized by stale_check_max_workers defaulting to max_workers; both phases get the same coerced retry.",
+             "error_count + in-flight <= max_errors + worker_count once stop is set (G5 with cardinality lemmas); stale check sized by stale_check_max_workers defaulting to max_workers; both phases get the same coerced retry; the function the engine receives runs a call's bound call with exactly the retry given (identity when none); the attempt budget belongs to one invocation (concrete unit: three functions through one decorator).",
         note="'that many do run in parallel' is a liveness statement: not decided. The counts are lemmas over the engine invariants at quiescence (contracts/completion.py, z3): at most k + max_workers calls fail; with one worker exactly k + 1 once stop was set; "
              "when stop was never set (max_errors=None or budget not exceeded) every call all of whose dependencies succeeded was executed - so the number of failures is the number of failing calls none of whose dependencies failed. "
              "'at most worker_count tokens are held' is the worker_pool contract plus T14.",
@@ -97,7 +97,7 @@ CLAIMED = {
         technique="trace postconditions on process / process_with_callbacks (exact suffix per outcome), totals functions, observer bracket in run, composite forwarding",
         text="Proved: each call produces running.completed / running.failed(CallError caused by the exception) / running only (non-Exception BaseException) with the full call scope (+ store class in the stale section); "
              "totals are announced before the section runs, from the plan that is executed; the observer is entered first and exited last on every path; composites forward everything to every member.",
-        note="Observer methods are assumed not to raise (T7). Equality of completed and total in a successful run uses C04 (each call exactly once).",
+        note="Observer methods are assumed not to raise (T7). That every callable Plan.call admits can be named by get_full_call_scope / CallError (so that a failure can be reported at all) is decided by a bounded stand-in over nine kinds of callable (plumbing.call-admission). Equality of completed and total in a successful run uses C04 (each call exactly once).",
     ),
     "C16": dict(
         technique="structural contracts: bound-call construction (who holds which slot), release of the bound call on every exit of process",
